@@ -294,9 +294,54 @@ def _roots(expr, fn, defs, pmap):
     return out
 
 
+def _comp_helper_keeps_order(repo, res, r3):
+    """isclose / allclose hand NumPy the two results of _array_comp_helper(a, b) in order (visit() below relies on
+    it): on every path of the helper the first result carries a's data and the second b's - reads of `.units` do not
+    count as data - because np.isclose(a, b) is not symmetric (the tolerance is rtol * |b|)."""
+    from engine.sem import summarise
+
+    fn = repo.mod(AF).func("_array_comp_helper")
+    res.fn(fn)
+    pa, pb = fn.params
+
+    def data_names(node):
+        out = set()
+
+        def go(n):
+            if isinstance(n, ast.Attribute) and n.attr in ("units",):
+                return
+            if isinstance(n, ast.Call) and norm(n.func) == "getattr" and len(n.args) >= 2 and isinstance(n.args[1], ast.Constant) and n.args[1].value == "units":
+                return
+            if isinstance(n, ast.Name):
+                out.add(n.id)
+            for c in ast.iter_child_nodes(n):
+                go(c)
+
+        go(node)
+        return out & {pa, pb}
+
+    bad = []
+    n = 0
+    for x in summarise(fn):
+        if x.kind != "return":
+            continue
+        if "__rebound" in x.value:
+            raise AnalysisError(f"{fn.where()}: a parameter of _array_comp_helper is re-bound in a way the path summariser does not follow: {x.value[:80]}")
+        v = ast.parse(x.value, mode="eval").body
+        if not (isinstance(v, ast.Tuple) and len(v.elts) == 2):
+            raise AnalysisError(f"{fn.where()}: _array_comp_helper returns something that is not a pair: {x.value[:60]}")
+        n += 1
+        if data_names(v.elts[0]) != {pa} or data_names(v.elts[1]) != {pb}:
+            bad.append(x.value[:100])
+    if n == 0:
+        raise AnalysisError(f"{fn.where()}: no returning path in _array_comp_helper")
+    res.check(not bad, "_array_comp_helper:order", fn.where(), "the comparison helper returns (a's data, b's data) on every path: np.isclose(a, b) uses rtol * |b|, so handing NumPy the operands the other way round changes the numbers", f"({pa}..., {pb}...)", bad[:3], rid=r3)
+
+
 def slot_rule(repo, res, inv):
     r3 = res.rule("C06-R3", "the data reaching slot k of the NumPy call is the handler's own k-th argument, only stripped (not transformed, not permuted)", floor=100)
     helpers = module_helpers(repo)
+    _comp_helper_keeps_order(repo, res, r3)
     for h in inv:
         if any(t in R3_EXCEPT_HANDLERS for t in h.targets):
             res.ok(h.key + ":exception", r3)
@@ -551,4 +596,5 @@ MUTANTS = [
     Mutant("dispatch-drops-kwargs", ARR, "unyt_array.__array_function__", "return func._implementation(*args, **kwargs)", "return func._implementation(*args)", ("C06-R6",)),
     Mutant("twin-local-alias", AF, "cross", "np.cross._implementation(np.asarray(a), np.asarray(b), *args, **kwargs)", "np.cross._implementation(np.asanyarray(a), np.asarray(b), *args, **kwargs)", (), benign=True),
     Mutant("twin-kw-form", AF, "around", "np.around._implementation(np.asarray(a), decimals=decimals) * ret_units", "np.around._implementation(np.asarray(a), decimals) * ret_units", (), benign=True),
+    Mutant("comp-helper-swaps-operands", AF, "_array_comp_helper", "    if bu != au and au != NULL_UNIT and bu != NULL_UNIT:", "    if au == NULL_UNIT and bu != NULL_UNIT:\n        a, au, b, bu = b, bu, a, au\n    if bu != au and au != NULL_UNIT and bu != NULL_UNIT:", ("C06-R3",)),
 ]
